@@ -155,6 +155,12 @@ def check_one_header(cx, fn, s, impl, kind, rep):
             rep.bad('HDR', where, inst, 'generics of the impl header: %s' % c[1], *loc)
             return
         ok_src.append(c)
+    # an impl of a handler that computes bounds carries them: its where-clause comes from the Generics value the computed predicates
+    # were pushed into, not from the type's untouched generics (a companion `impl Copy` / `impl Eq` / `fn new` block emitted with the
+    # bare where-clause applies to instantiations the generated code does not compile for)
+    if kind != 'nested' and ok_src[1][0] == 'ast' and any(ev.kind == 'mcall' and ev.method == BOUND_FN for ev in tfw.events):
+        rep.bad('HDR', where, inst, 'the where-clause of this impl is the type\'s own (`ast.generics`), although the handler computes bound predicates: they are not applied to this impl', *loc)
+        return
     rep.ok('HDR', '%s|%s' % (where, inst), {'file': t.file, 'line': t.line, 'impl': inst, 'generics_from': ok_src[0][1], 'where_from': ok_src[1][1]})
 
 
@@ -324,6 +330,11 @@ def check_bound_tables(cx, rep):
                 ('Auto', ['%s($1,$2,$3)' % G, 'crate::common::where_predicates_bool::%s($1,$2,$3)' % G], 'automatic mode must build predicates from (bound_trait, types, supertraits)'),
                 ('All', ['%s($0,$1)' % A, 'crate::common::where_predicates_bool::%s($0,$1)' % A], '`bound(*)` must build predicates from (params, bound_trait)'),
             ]
+            # nothing but the mode decides: every way out of the function is one arm of `match self`, under no other condition
+            for r in rows:
+                keys = tuple(k for k in r[0] if k != '_')
+                if len(keys) != 1 or not str(keys[0]).startswith('Self::'):
+                    rep.bad('BOUND-USE', where, 'extra-case', 'a result (`%s`) is produced under %s: the predicates no longer depend on the bound mode alone' % (r[1][:60], list(r[0])), f.file, f.line)
             for name, vals, why in exp:
                 cand = [r for r in rows if tuple(k for k in r[0] if k != '_')[-1:] == ('Self::' + name,)]
                 if len(cand) == 1 and cand[0][1] in vals:
